@@ -180,6 +180,14 @@ def prove(ctx, module, theorems, extra_targets=("feoxdrv",)):
     res["discharged"] = len(discharged) if not hits else 0
     res["theorems"] = discharged
     res["failures"] += failures
+    if ctx.tier == "thorough":
+        # the toolchain's independent re-checker replays the compiled property module (and, through the imports it
+        # loads, trusts nothing the elaborator said about it) - thorough tier only: 10-60 s per module
+        r = sh(["lake", "env", "leanchecker", module], cwd=LEAN_DIR)
+        res["leanchecker"] = "ok" if r.returncode == 0 else "failed"
+        if r.returncode != 0:
+            res["failures"].append("leanchecker rejects %s: %s" % (module, (r.stdout or "")[-400:].strip()))
+        ctx.log("leanchecker %s: %s" % (module, res["leanchecker"]))
     ctx.log("proof: %d/%d obligations discharged" % (res["discharged"], res["obligations"]))
     return res
 
